@@ -250,6 +250,33 @@ def oracle_histories(ck, tier, deep):
     abel.rbasex.cache_cleanup()
 
 
+def oracle_order0(ck, tier):
+    """order 0 has no odd terms: `odd=True` passed along with it (a script looping over orders with a fixed flag) is the same request
+    as `odd=False` — the same image for every `out`, the same distributions, in both directions"""
+    import abel
+    rng = np.random.default_rng(seed() + 1616)
+    for it in range(6 if tier == "quick" else 40):
+        h, w = (int(v) for v in rng.integers(7, 22, size=2))
+        im = rng.random((h, w)) + 0.1
+        origin = (int(rng.integers(0, h)), int(rng.integers(0, w)))
+        rmax = ["MAX", "MIN", "all", int(rng.integers(3, 9))][it % 4]
+        direction = ["inverse", "forward"][it % 2]
+        for o in OUTS:
+            ck.count(("S.order0-odd", o, direction), suite="S.outputs")
+            rep = dict(shape=[h, w], origin=list(origin), rmax=rmax, order=0, direction=direction, out=o)
+            try:
+                a = quiet(abel.rbasex.rbasex_transform, im, origin=origin, rmax=rmax, order=0, odd=True, direction=direction, out=o)
+                b = quiet(abel.rbasex.rbasex_transform, im, origin=origin, rmax=rmax, order=0, odd=False, direction=direction, out=o)
+            except Exception as e:
+                ck.violation(dict(site="rbasex_transform", clause="exception"), rep, f"{type(e).__name__}: {e}")
+                continue
+            if np.shape(a[0]) != np.shape(b[0]) or not np.allclose(a[0], b[0], rtol=0, atol=1e-12 * max(1.0, np.abs(b[0]).max())) \
+                    or not np.array_equal(a[1].cos(), b[1].cos()):
+                ck.violation(dict(site="rbasex_transform", clause="order0-odd", out=o), rep,
+                             f"order=0 with odd=True, out={o!r}: " + (f"image shape {np.shape(a[0])} instead of {np.shape(b[0])}" if np.shape(a[0]) != np.shape(b[0])
+                                                                         else "image or distributions differ from those with odd=False"))
+
+
 def run(tier):
     ck = Check("C16", tier)
     deep = tier == "thorough"
@@ -273,6 +300,7 @@ def run(tier):
         ck.broken.append(dict(kind="proof", module="pyabel_drv", why="driver build failed", log=log[-1500:]))
     oracle(ck, tier, deep or bool(ck.broken))
     oracle_histories(ck, tier, deep)
+    oracle_order0(ck, tier)
     return ck.finish()
 
 
